@@ -73,7 +73,10 @@ public:
         {
           _dequeuedSignal.reset();
           if (_queue.push(job))
+          {
+            _dequeuedSignal.set(); // do not hide further free slots from other waiting threads
             break;
+          }
           _dequeuedSignal.wait();
         }
         _enqueuedSignal.set();
@@ -89,7 +92,10 @@ public:
       {
         _dequeuedSignal.reset();
         if (_queue.push(job))
+        {
+          _dequeuedSignal.set(); // do not hide further free slots from other waiting threads
           break;
+        }
         _dequeuedSignal.wait();
       }
       _enqueuedSignal.set();
@@ -180,7 +186,10 @@ public:
           {
             enqueuedSignal.reset();
             if (queue.pop(job))
+            {
+              enqueuedSignal.set(); // do not hide further jobs from the other workers
               break;
+            }
             enqueuedSignal.wait();
           }
           dequeuedSignal.set();
